@@ -323,30 +323,30 @@ class Event(Obj):
         self.clearable = clearable
 
     def init(self, st, is_set=False):
-        self.set(st, 'set', z3.BoolVal(is_set))
+        self.set(st, 'flag', z3.BoolVal(is_set))
 
     def havoc(self, ex, st):
         # another role may set it at any time; only this role's knowledge "it is set" is stable if not clearable
-        cur = self.get(st, 'set')
-        new = fresh(self.label + '.set', z3.BoolSort())
+        cur = self.get(st, 'flag')
+        new = fresh(self.label + '.flag', z3.BoolSort())
         if not self.clearable:
             st.assume(z3.Implies(cur, new))
-        self.set(st, 'set', new)
+        self.set(st, 'flag', new)
 
     def m_is_set(self, ex, st, args, kwargs, node):
         # interference: others may have set it since we last looked
         st = st.fork()
         self.havoc(ex, st)
-        return [('ok', st, self.get(st, 'set'))]
+        return [('ok', st, self.get(st, 'flag'))]
 
     def m_set(self, ex, st, args, kwargs, node):
         st = st.fork()
-        self.set(st, 'set', z3.BoolVal(True))
+        self.set(st, 'flag', z3.BoolVal(True))
         return [('ok', st, NONE)]
 
     def m_clear(self, ex, st, args, kwargs, node):
         st = st.fork()
-        self.set(st, 'set', z3.BoolVal(False))
+        self.set(st, 'flag', z3.BoolVal(False))
         return [('ok', st, NONE)]
 
 
@@ -625,3 +625,321 @@ class PipeReader(Obj):
         st = st.fork()
         self.set(st, 'closed', z3.BoolVal(True))
         return [('ok', st, NONE)]
+
+
+# ------------------------------------------------------------------ locks and conditions (E2: one role's view + interference hooks)
+class Lock(Obj):
+    """threading.Lock / RLock as seen by the role under verification.  `held` counts this role's acquisitions.
+    Interference by other roles is applied by the unit's hooks: unit.on_acquire(ex, st, lock) right after the lock is
+    taken (everything other roles may have done while it was free) -- DESIGN 2.3."""
+    trusted = 'threading.Lock/RLock: mutual exclusion; `with` releases on every exit; acquire(timeout=t) returns False on expiry'
+    cls_name = 'Lock'
+
+    def __init__(self, ex, label='lock', reentrant=False):
+        super().__init__(ex, label)
+        self.reentrant = reentrant
+
+    def init(self, st):
+        self.set(st, 'held', z3.IntVal(0))
+        return self
+
+    def havoc(self, ex, st):
+        pass
+
+    def held(self, st):
+        return self.get(st, 'held')
+
+    def _take(self, ex, st, node):
+        if not self.reentrant:
+            ex.oblige(st, f'line {node.lineno}: {self.label} is not already held by this thread (self-deadlock)', self.held(st) == 0)
+        st = st.fork()
+        self.set(st, 'held', self.held(st) + 1)
+        hook = getattr(ex.unit, 'on_acquire', None)
+        if hook:
+            hook(ex, st, self, node)
+        return st
+
+    def cm_enter(self, ex, st, node):
+        st = self._take(ex, st, node)
+        st.ghost['#blocking'] = st.ghost.get('#blocking', ()) + ((node.lineno, f'acquire {self.label}', tuple(self.locks_held_labels(ex, st, exclude=self))),)
+        return [('ok', st, self)]
+
+    def cm_exit(self, ex, st, node, outcome):
+        st = st.fork()
+        self.set(st, 'held', self.held(st) - 1)
+        return [('ok', st, False)]
+
+    def m_acquire(self, ex, st, args, kwargs, node):
+        timeout = kwargs.get('timeout', args[1] if len(args) > 1 else None)
+        blocking = kwargs.get('blocking', args[0] if args else None)
+        s1 = self._take(ex, st, node)
+        outs = [('ok', s1, z3.BoolVal(True))]
+        if timeout is not None or (blocking is not None and not z3.is_true(z3.simplify(blocking))):
+            outs.append(('ok', st.fork(), z3.BoolVal(False)))
+        else:
+            s1.ghost['#blocking'] = s1.ghost.get('#blocking', ()) + ((node.lineno, f'acquire {self.label}', tuple(self.locks_held_labels(ex, st, exclude=self))),)
+        return outs
+
+    def m_release(self, ex, st, args, kwargs, node):
+        ex.oblige(st, f'line {node.lineno}: {self.label} is held when released', self.held(st) >= 1)
+        st = st.fork()
+        self.set(st, 'held', self.held(st) - 1)
+        return [('ok', st, NONE)]
+
+    def m_locked(self, ex, st, args, kwargs, node):
+        return [('ok', st, fresh('locked', z3.BoolSort()))]
+
+    def locks_held_labels(self, ex, st, exclude=None):
+        out = []
+        for o in ex.objs.values():
+            if isinstance(o, Lock) and o is not exclude and o.has(st, 'held'):
+                h = z3.simplify(o.held(st))
+                if not (z3.is_int_value(h) and h.as_long() == 0):
+                    out.append(o.label)
+        return out
+
+
+class Condition(Obj):
+    """threading.Condition over a Lock.  wait() releases the lock for its duration; what other roles may do meanwhile is
+    supplied by unit.on_wait(ex, st, cond, notified: bool) which must havoc the shared state according to the rely.
+    Trusted: no spurious wake-ups: wait() returns True only if a notify() on this condition happened during the wait."""
+    trusted = 'threading.Condition: wait() releases and re-acquires the lock; returns True only after a notify() issued during the wait (no spurious wake-ups in CPython); wait(timeout) returns False on expiry'
+    cls_name = 'Condition'
+
+    def __init__(self, ex, lock, label='cond'):
+        super().__init__(ex, label)
+        self.lock = lock
+
+    def init(self, st):
+        self.set(st, 'notifies', z3.IntVal(0))
+        return self
+
+    def havoc(self, ex, st):
+        pass
+
+    def cm_enter(self, ex, st, node):
+        return self.lock.cm_enter(ex, st, node)
+
+    def cm_exit(self, ex, st, node, outcome):
+        return self.lock.cm_exit(ex, st, node, outcome)
+
+    def m_acquire(self, ex, st, args, kwargs, node):
+        return self.lock.m_acquire(ex, st, args, kwargs, node)
+
+    def m_release(self, ex, st, args, kwargs, node):
+        return self.lock.m_release(ex, st, args, kwargs, node)
+
+    def m_wait(self, ex, st, args, kwargs, node):
+        timeout = kwargs.get('timeout', args[0] if args else None)
+        ex.oblige(st, f'line {node.lineno}: {self.label}.wait() is called with its lock held', self.lock.held(st) >= 1)
+        untimed = timeout is None or (is_z3(timeout) and timeout.sort() == Val and z3.is_true(z3.simplify(timeout == NONE)))
+        maybe_none = is_z3(timeout) and timeout.sort() == Val and not untimed
+        outs = []
+        hook = getattr(ex.unit, 'on_wait', None)
+        if hook is None:
+            raise Unsupported(f'{self.label}.wait() without an interference specification (unit.on_wait)')
+        s1 = st.fork()
+        s1.ghost['#waits'] = s1.ghost.get('#waits', 0) + 1
+        hook(ex, s1, self, True, node)
+        if untimed:
+            s1.ghost['#blocking'] = s1.ghost.get('#blocking', ()) + ((node.lineno, f'wait {self.label}', tuple(self.lock.locks_held_labels(ex, st, exclude=self.lock))),)
+        outs.append(('ok', s1, z3.BoolVal(True)))
+        if not untimed:
+            s2 = st.fork()
+            if maybe_none:
+                s2.assume(timeout != NONE)
+            s2.ghost['#waits'] = s2.ghost.get('#waits', 0) + 1
+            hook(ex, s2, self, False, node)
+            if ex.feasible(s2):
+                outs.append(('ok', s2, z3.BoolVal(False)))
+        return outs
+
+    def m_notify(self, ex, st, args, kwargs, node):
+        ex.oblige(st, f'line {node.lineno}: {self.label}.notify() is called with its lock held', self.lock.held(st) >= 1)
+        st = st.fork()
+        self.set(st, 'notifies', self.get(st, 'notifies') + 1)
+        hook = getattr(ex.unit, 'on_notify', None)
+        if hook:
+            hook(ex, st, self, node)
+        return [('ok', st, NONE)]
+
+    m_notify_all = m_notify
+
+
+# ------------------------------------------------------------------ hand-off queues seen by one role (history functions of the index)
+class QueueWriter(Obj):
+    """A FIFO hand-off queue seen by its single writer: the k-th put (k = <key>.nput) is checked against the per-item
+    guarantee by unit.on_put(ex, st, q, k, item, node).  (SingleLane / asyncio.Queue / queue.Queue contract: FIFO, blocks when full.)"""
+    trusted = 'FIFO queue contract (SingleLane: proved in contracts/singlelane.py; asyncio.Queue/queue.Queue/SimpleQueue: trusted): the k-th get returns the k-th put'
+
+    def __init__(self, ex, key='q', label=None, maxsize=None):
+        super().__init__(ex, label or key)
+        self.key = key
+        self.maxsize = maxsize
+
+    def init(self, st):
+        st.ghost[self.key + '.nput'] = z3.IntVal(0)
+        return self
+
+    def nput(self, st):
+        return st.ghost[self.key + '.nput']
+
+    def havoc(self, ex, st):
+        pass
+
+    def m_put(self, ex, st, args, kwargs, node):
+        st = st.fork()
+        k = self.nput(st)
+        item = args[0]
+        ex.unit.on_put(ex, st, self, k, item, node)
+        st.ghost[self.key + '.nput'] = k + 1
+        st.ghost['#blocking'] = st.ghost.get('#blocking', ()) + ((node.lineno, f'put {self.label}', ()),)
+        return [('ok', st, NONE)]
+
+
+class QueueReader(Obj):
+    """The same queue seen by its single reader: the k-th get (k = <key>.nget) returns an item about which only the
+    writer's per-item guarantee is known: unit.on_get(ex, st, q, k, z, node) -> list of states (case split)."""
+    trusted = QueueWriter.trusted
+
+    def __init__(self, ex, key='q', label=None, maxsize=None):
+        super().__init__(ex, label or key)
+        self.key = key
+        self.maxsize = maxsize
+
+    def init(self, st):
+        st.ghost[self.key + '.nget'] = z3.IntVal(0)
+        return self
+
+    def nget(self, st):
+        return st.ghost[self.key + '.nget']
+
+    def havoc(self, ex, st):
+        pass
+
+    def _get(self, ex, st, node, blocking=True):
+        k = self.nget(st)
+        z = fresh('got')
+        outs = []
+        for s in ex.unit.on_get(ex, st, self, k, z, node):
+            s.ghost[self.key + '.nget'] = k + 1
+            if blocking:
+                s.ghost['#blocking'] = s.ghost.get('#blocking', ()) + ((node.lineno, f'get {self.label}', ()),)
+            if ex.feasible(s):
+                outs.append(('ok', s, z))
+        return outs
+
+    def m_get(self, ex, st, args, kwargs, node):
+        if args or kwargs:
+            raise Unsupported('QueueReader.get with arguments')
+        return self._get(ex, st, node)
+
+    def m_get_nowait(self, ex, st, args, kwargs, node):
+        outs = self._get(ex, st, node, blocking=False)
+        outs.append(ex.raise_new(st.fork(), 'queue.Empty'))
+        return outs
+
+    def m_empty(self, ex, st, args, kwargs, node):
+        # volatile: the writer may put at any time; unit.on_empty may constrain (e.g. nothing left after the terminal item)
+        hook = getattr(ex.unit, 'on_empty', None)
+        b = fresh('empty', z3.BoolSort())
+        st = st.fork()
+        if hook:
+            hook(ex, st, self, b, node)
+        return [('ok', st, b)]
+
+
+fut_ok = z3.Function('fut_ok', Val, z3.BoolSort())       # outcome of a future (fixed once resolved; read only via result()/await)
+fut_val = z3.Function('fut_val', Val, Val)
+fut_exc = z3.Function('fut_exc', Val, Val)
+
+
+class FutureSym:
+    """Futures with symbolic identity (taken out of a queue): result()/await yield fut_val(f) or raise fut_exc(f);
+    cancel() is recorded in the ghost set `cancelled` (a sequence of futures)."""
+    trusted = 'Future.result()/await returns the result or raises the exception the future was resolved with; cancel() never raises'
+
+    def __init__(self, exc_class='BaseException'):
+        self.exc_class = exc_class
+
+    def getattr(self, ex, st, base, attr, node):
+        from .core import SymMethod
+        if attr in ('result', 'cancel', 'exception', 'cancelled', 'done'):
+            return [('ok', st, SymMethod(self, base, attr))]
+        raise Unsupported(f'future.{attr}')
+
+    def outcome(self, ex, st, f, node):
+        outs = []
+        s1 = st.fork().assume(fut_ok(f))
+        if ex.feasible(s1):
+            outs.append(('ok', s1, fut_val(f)))
+        e = fut_exc(f)
+        s2 = st.fork().assume(z3.Not(fut_ok(f)), V.isinst(e, self.exc_class), *V.cls_facts(e))
+        if ex.feasible(s2):
+            outs.append(('raise', s2, e))
+        return outs
+
+    def call(self, ex, st, recv, name, args, kwargs, node):
+        if name == 'result':
+            st = st.fork()
+            st.ghost['#blocking'] = st.ghost.get('#blocking', ()) + ((node.lineno, 'future.result()', ()),)
+            return self.outcome(ex, st, recv, node)
+        if name == 'cancel':
+            st = st.fork()
+            st.ghost['cancelled'] = z3.Concat(st.ghost.get('cancelled', V.EMPTY), z3.Unit(recv))
+            return [('ok', st, fresh('cancel_ret', z3.BoolSort()))]
+        raise Unsupported(f'future.{name}()')
+
+
+class ThreadObj(Obj):
+    """mpservice.threading.Thread handle created by the function under verification."""
+    trusted = 'Thread: start() runs target(*args, **kwargs) in a new thread; join() returns after it has ended (mpservice Thread.join re-raises the target\'s exception: C12)'
+
+    def __init__(self, ex, target, args, kwargs, name):
+        super().__init__(ex, 'thread')
+        self.target, self.args, self.kwargs, self.tname = target, args, kwargs, name
+
+    def init(self, st):
+        self.set(st, 'started', z3.BoolVal(False))
+        self.set(st, 'joined', z3.BoolVal(False))
+        return self
+
+    def havoc(self, ex, st):
+        pass
+
+    def m_start(self, ex, st, args, kwargs, node):
+        ex.oblige(st, f'line {node.lineno}: a thread is started at most once', z3.Not(self.get(st, 'started')))
+        st = st.fork()
+        self.set(st, 'started', z3.BoolVal(True))
+        hook = getattr(ex.unit, 'on_thread_start', None)
+        if hook:
+            hook(ex, st, self, node)
+        return [('ok', st, NONE)]
+
+    def m_join(self, ex, st, args, kwargs, node):
+        st = st.fork()
+        hook = getattr(ex.unit, 'on_thread_join', None)
+        if hook:
+            r = hook(ex, st, self, node)
+            if r is not None:
+                return r
+        self.set(st, 'joined', z3.BoolVal(True))
+        st.ghost['#blocking'] = st.ghost.get('#blocking', ()) + ((node.lineno, 'join thread', ()),)
+        return [('ok', st, NONE)]
+
+    def m_is_alive(self, ex, st, args, kwargs, node):
+        hook = getattr(ex.unit, 'on_is_alive', None)
+        if hook:
+            return hook(ex, st, self, node)
+        return [('ok', st, fresh('alive', z3.BoolSort()))]
+
+
+class ThreadCtor(Callable_):
+    trusted = ThreadObj.trusted
+
+    def invoke(self, ex, st, args, kwargs, node):
+        target = kwargs.get('target')
+        t = ThreadObj(ex, unbox_handle(ex, target) if target is not None else None, kwargs.get('args'), kwargs.get('kwargs'), kwargs.get('name'))
+        st = st.fork()
+        t.init(st)
+        return [('ok', st, t)]
